@@ -33,7 +33,9 @@ import Sigc.Basic
   slot variable) dies when the last functor copy naming it is destroyed (`ownedBy`).
 
   `err` is set when a cascade runs out of fuel (`fuel s = s.nextRep + 2` — cannot happen, see
-  `Sigc/Props/SlotG.lean`).  No proofs in this file.
+  `Sigc/Props/SlotG.lean`).  The model follows the library after the fixes of findings F10 and F11 (both
+  `operator=` store the new representation in the variable before they delete the old one; the copy assignment
+  reads `src.blocked_` before the exchange).  No proofs in this file.
 -/
 namespace Sigc.SlotG
 
@@ -158,12 +160,6 @@ def hasParent (s : State) (v : Nat) : Bool :=
   match repObj s v with
   | some R => R.parent.isSome
   | none => false
-
-/-- `v`'s representation is its own parent -/
-def selfParent (s : State) (v : Nat) : Bool :=
-  match repOf s v, repObj s v with
-  | some r, some R => R.parent == some r
-  | _, _ => false
 
 /-- `slot_base::empty()` -/
 def emptyVar (s : State) (v : Nat) : Bool :=
@@ -411,11 +407,10 @@ def specCheck (s : State) : Fun → Option String
     if (match t with | some t' => deadT s t' | none => false) then some "dead" else
     if pinned s v then some "pinned" else none
 
-/-- the rules for an operation that deletes the representation of `d` (`x`: the other slot operand) -/
-def replaceCheck (s : State) (d x : Nat) (exchange : Bool) : Option String :=
-  if ownKind s d && (ownedBy s d || ownedBy s x) then some "owned"
-  else if exchange && hasParent s d && (ownKind s d || selfParent s d) then some "xparent"
-  else none
+/-- the rule for `delete_rep_with_check()` on `d` (assignment from an empty source, `*d = slot()`): it writes
+    `rep_ = nullptr` after `delete rep_`, so that deletion must not destroy `d` itself -/
+def deleteCheck (s : State) (d : Nat) : Option String :=
+  if ownKind s d && ownedBy s d then some "owned" else none
 
 /-- the refusal of an operation, `none` = it is performed -/
 def check (s : State) : Op → Option String
@@ -428,13 +423,11 @@ def check (s : State) : Op → Option String
   | .asgS d x | .masgS d x =>
     if deadS s d || deadS s x then some "dead"
     else if repOf s d == repOf s x then none
-    else replaceCheck s d x (!emptyVar s x)
+    else if emptyVar s x then deleteCheck s d else none
   | .setS d f =>
     if deadS s d then some "dead" else
-    match specCheck s f with
-    | some e => some e
-    | none => replaceCheck s d d true
-  | .clrS d => if deadS s d then some "dead" else replaceCheck s d d false
+    specCheck s f
+  | .clrS d => if deadS s d then some "dead" else deleteCheck s d
   | .delS v =>
     if deadS s v then some "dead" else if pinnedOther s v then some "pinned"
     else if ownedBy s v then some "owned" else none
@@ -452,16 +445,15 @@ def check (s : State) : Op → Option String
   | .bad => some "badop"
 
 /-- the tail shared by both assignment operators: `if (rep_) { new_rep_->set_parent(rep_->parent_, …);
-    delete rep_; } rep_ = new_rep_;` -/
+    auto old_rep_ = rep_; rep_ = new_rep_; delete old_rep_; } else rep_ = new_rep_;` -/
 def exchangeRep (d n : Nat) (s : State) : State :=
-  let s1 := match repOf s d with
-    | none => s
-    | some q =>
-      let par := match s.reps q with
-        | some Q => Q.parent
-        | none => none
-      deleteRep q (s.modRep n fun N => { N with parent := par })
-  s1.modSlot d fun D => { D with rep := some n }
+  match repOf s d with
+  | none => s.modSlot d fun D => { D with rep := some n }
+  | some q =>
+    let par := match s.reps q with
+      | some Q => Q.parent
+      | none => none
+    deleteRep q ((s.modRep n fun N => { N with parent := par }).modSlot d fun D => { D with rep := some n })
 
 /-- the effect of an operation that is not refused -/
 def apply : Op → State → State
@@ -499,7 +491,7 @@ def apply : Op → State → State
       else match X.rep with
         | none => s
         | some r =>
-          (exchangeRep d s.nextRep (cloneRep r s)).modSlot d fun D => { D with blocked := X.blocked }
+          exchangeRep d s.nextRep ((cloneRep r s).modSlot d fun D => { D with blocked := X.blocked })
   | .masgS d x, s =>
     match s.slots x with
     | none => s
